@@ -283,7 +283,7 @@ def run(check):
     with harness.Runner() as rn:
         if not rn.hang_oracle_works():
             check.fail_broken("the hang oracle (Go runtime deadlock report) does not fire in this build")
-        runfam.run_and_monitor(check, rn, items, {"C03"}, on_result=on_result)
+        runfam.run_and_monitor(check, rn, items, {"C03"}, on_result=on_result, claim_deaths=True)
         lout = rn.run_cases([c for c, _s, _g in late])
         aout = rn.run_cases([c for c, _p, _s in aborted], per_case_timeout=90)
     for case, prog, shape in aborted:
